@@ -34,7 +34,10 @@ def main(path):
         return 0
     except Exception as e:
         tb = traceback.extract_tb(e.__traceback__)
-        if tb and tb[-1].filename.startswith('/verif/') and not isinstance(e, OSError):
+        if tb and tb[-1].filename.startswith('/verif/') and '/zverif/symenv/' not in tb[-1].filename \
+                and not isinstance(e, OSError):
+            # (exceptions raised by the environment stubs - strict locks, file layer - are what the real
+            # facility would raise for the same misuse, so they count as behaviour of the code under test)
             print('HARNESS-ERROR: exception raised by the verification machinery itself: %s: %s' % (type(e).__name__, e))
             traceback.print_exc()
             return 3
